@@ -1008,12 +1008,27 @@ func restart(c *core.Case) {
 	if recv {
 		peerTo, peerFrom = location, origin
 	}
+	// A receiving session may be created with its addresses already known
+	// (NewSession with the Received bit); an initiating one always is.  Then a
+	// header that omits to and/or from is tolerated and must leave them alone.
+	preset := recv && r.Intn(3) == 0
 	hs := make([]addrChoice, 3)
 	hs[0] = addrChoice{To: peerTo.String(), From: peerFrom.String(), Kind: "same"}
-	if recv && r.Intn(3) == 0 {
-		hs[0].From, hs[0].Kind = "", "no-from"
-	}
 	estTo, estFrom := hs[0].To, hs[0].From
+	switch {
+	case !recv || preset:
+		switch r.Intn(6) {
+		case 0:
+			hs[0].To, hs[0].Kind = "", "to-absent"
+		case 1:
+			hs[0].From, hs[0].Kind = "", "from-absent"
+		case 2:
+			hs[0].To, hs[0].From, hs[0].Kind = "", "", "both-absent"
+		}
+	case r.Intn(3) == 0:
+		hs[0].From, hs[0].Kind = "", "no-from"
+		estFrom = ""
+	}
 	firstBad, badAttr := -1, ""
 	for i := 1; i < 3; i++ {
 		h := addrChoice{To: peerTo.String(), From: peerFrom.String(), Kind: "same"}
@@ -1029,6 +1044,8 @@ func restart(c *core.Case) {
 			h.To, h.Kind = "", "to-absent"
 		case 3:
 			h.From, h.Kind = "", "from-absent"
+		case 6:
+			h.To, h.From, h.Kind = "", "", "both-absent"
 		case 4:
 			if recv && estFrom == "" {
 				h.From, h.Kind = peerFrom.String(), "from-first-given"
@@ -1090,7 +1107,7 @@ func restart(c *core.Case) {
 		hs[0].ID = "p1"
 	}
 	hs[0].Attrs = "canonical"
-	c.Sample(map[string]any{"part": "restart", "role": role(recv), "ws": ws, "s2s": s2s, "origin": origin.String(), "location": location.String(), "headers": hs, "first_changed_header": firstBad + 1})
+	c.Sample(map[string]any{"part": "restart", "role": role(recv), "preset_addresses": preset || !recv, "ws": ws, "s2s": s2s, "origin": origin.String(), "location": location.String(), "headers": hs, "first_changed_header": firstBad + 1})
 	log := &hspeer.Log{}
 	fs := restartFeatures(log)
 	hdr := func(i int) string {
@@ -1100,6 +1117,7 @@ func restart(c *core.Case) {
 	var s *xmpp.Session
 	var err error
 	var p bool
+	var conn *bufconn.Conn
 	if !recv {
 		var steps []hspeer.Step
 		for i := 0; i < 3; i++ {
@@ -1108,7 +1126,7 @@ func restart(c *core.Case) {
 				hspeer.Step{Want: []string{first(ws)}, Reply: hspeer.Say(hdr(i) + hspeer.Features(ws, hspeer.Advert(restartNS[i], restartLocal[i], true)))},
 				hspeer.Step{Want: []string{"select"}, Reply: hspeer.Say(hspeer.El(restartNS[i], "ok"))})
 		}
-		conn := bufconn.NewScripted(hspeer.NewPeer(steps...).Script())
+		conn = bufconn.NewScripted(hspeer.NewPeer(steps...).Script())
 		s, err, p = construct(c, "NewSession", func() (*xmpp.Session, error) {
 			return xmpp.NewSession(ctx, location, origin, conn, stateOf(s2s), negotiator(ws, "", fs...))
 		})
@@ -1120,8 +1138,11 @@ func restart(c *core.Case) {
 				steps = append(steps, hspeer.Step{Want: []string{"ok"}, Reply: hspeer.Say(hdr(i + 1))})
 			}
 		}
-		conn := bufconn.NewScripted(hspeer.NewPeer(steps...).Script())
+		conn = bufconn.NewScripted(hspeer.NewPeer(steps...).Script())
 		s, err, p = construct(c, "ReceiveSession", func() (*xmpp.Session, error) {
+			if preset {
+				return xmpp.NewSession(ctx, location, origin, conn, stateOf(s2s)|xmpp.Received, negotiator(ws, "", fs...))
+			}
 			return xmpp.ReceiveSession(ctx, conn, stateOf(s2s), negotiator(ws, "", fs...))
 		})
 	}
@@ -1129,6 +1150,15 @@ func restart(c *core.Case) {
 		return
 	}
 	c.Count("restart_cases", 1)
+	omitted := 0
+	for _, h := range hs {
+		if h.To == "" || h.From == "" {
+			omitted++
+		}
+	}
+	if hs[0].Kind != "same" && hs[0].Kind != "no-from" {
+		c.Count("restart_first_header_omits_address", 1)
+	}
 	n := log.Negotiated()
 	c.Count("restarts_observed", min(n, 2))
 	kinds := hs[1].Kind + "/" + hs[1].Attrs + "," + hs[2].Kind + "/" + hs[2].Attrs
@@ -1150,6 +1180,36 @@ func restart(c *core.Case) {
 			}
 			if hs[1].Attrs == "id-different" || hs[2].Attrs == "id-different" {
 				c.Count("restart_id_changed_and_reported", 1)
+			}
+			// addresses that were established keep their values through headers
+			// that omit them
+			wantLocal, wantRemote := mustJID(estTo), mustJID(estFrom)
+			if omitted > 0 {
+				c.Count("headers_omitting_address_accepted", 1)
+			}
+			if !s.LocalAddr().Equal(wantLocal) || (estFrom != "" && !s.RemoteAddr().Equal(wantRemote)) {
+				c.Violate("hdr:restart:addr-lost", "%s: after three accepted headers %+v the session reports LocalAddr=%q RemoteAddr=%q; established were %q and %q", role(recv), hs, s.LocalAddr(), s.RemoteAddr(), estTo, estFrom)
+				return
+			}
+			// ... and every header we sent carries our own addresses
+			if !recv || preset {
+				out := conn.Written()
+				offs := headerOffsets(out, ws)
+				if len(offs) != 3 {
+					c.Violate("hdr:emit:stale-output", "%s: three streams were negotiated, the output contains %d stream header(s): %q", role(recv), len(offs), trunc(out, 500))
+					return
+				}
+				for i, off := range offs {
+					w := emitWant{WS: ws, NS: nsOf(s2s), To: location.String(), From: origin.String()}
+					if recv {
+						w = emitWant{WS: ws, NS: nsOf(s2s), To: origin.String(), From: location.String(), AnyID: true}
+					}
+					judgeEmitted(c, fmt.Sprintf("%s header %d of a session whose peer's headers were %+v", role(recv), i+1, hs), out[off:], w, false)
+					if c.Violated() {
+						return
+					}
+				}
+				c.Count("restart_own_headers_checked", 3)
 			}
 		} else {
 			c.Count("restart_unchanged_refused", 1)
@@ -1388,6 +1448,17 @@ func bindInit(c *core.Case) {
 
 func bindInitCase(c *core.Case, ws bool, origin jid.JID, replyKind string, assigned jid.JID) {
 	location := origin.Domain()
+	// some servers omit to (and a few from) in their header: the session keeps
+	// the addresses it was created with
+	hdrTo, hdrFrom := origin.String(), location.String()
+	switch c.Rand.Intn(6) {
+	case 0, 1:
+		hdrTo = ""
+		c.Count("bind_initiator_header_omits_to", 1)
+	case 2:
+		hdrFrom = ""
+		c.Count("bind_initiator_header_omits_from", 1)
+	}
 	c.Sample(map[string]any{"part": "bind-initiator", "ws": ws, "origin": origin.String(), "reply": replyKind, "assigned": assigned.String()})
 	var request []byte
 	iqns := ""
@@ -1428,7 +1499,7 @@ func bindInitCase(c *core.Case, ws bool, origin jid.JID, replyKind string, assig
 		return ""
 	}
 	peer := hspeer.NewPeer(
-		hspeer.Step{Want: []string{first(ws)}, Reply: hspeer.Say(hspeer.Header(hspeer.HeaderOpts{WS: ws, From: location.String(), To: origin.String(), ID: "p1"}) + hspeer.Features(ws, `<bind xmlns='`+hspeer.NSBind+`'/>`))},
+		hspeer.Step{Want: []string{first(ws)}, Reply: hspeer.Say(hspeer.Header(hspeer.HeaderOpts{WS: ws, From: hdrFrom, To: hdrTo, ID: "p1"}) + hspeer.Features(ws, `<bind xmlns='`+hspeer.NSBind+`'/>`))},
 		hspeer.Step{Want: []string{"iq"}, Reply: reply},
 	)
 	conn := bufconn.NewScripted(peer.Script())
@@ -1757,6 +1828,7 @@ func Prop() *core.Prop {
 			"header_write_failed", "header_write_failed_at_restart", "header_write_failed_at_first_header", "headers_checked_after_failed_write", "sessions_after_failed_write_established",
 			"emit_direct", "emit_session_initiator", "emit_session_receiver", "emitted_headers_parsed", "lib2lib_established",
 			"accept_direct", "accept_session", "valid_headers_accepted", "invalid_headers_refused", "refused:version", "refused:no-id", "refused:name", "refused:content-ns",
+			"restart_first_header_omits_address", "headers_omitting_address_accepted", "restart_own_headers_checked", "bind_initiator_header_omits_to", "bind_initiator_header_omits_from",
 			"restart_cases", "restart_unchanged_established", "restart_changed_address_cases", "restart_changed_address_refused",
 			"restart_invalid_later_header:no-id", "restart_invalid_later_header:version", "restart_invalid_later_header_refused", "restart_id_changed_and_reported", "restart_header:version-equivalent",
 			"stream_error_cases", "bind_initiator_cases", "bind_requests_parsed", "bind_receiver_cases", "bind_replies_parsed", "bind_callback_invocations", "bind_bad_replies_refused",
